@@ -829,3 +829,50 @@ def r_op_no_registration(cx):
               "%s changes the registered resources / operators while instantiating (%s): a user definition of the same name "
               "is overwritten before it can be used" % (impl, ", ".join(sorted(set(bad)))), cx.where(f.d["span"]))
     cx.count("R-OP-NO-REGISTRATION", "op_impls", n)
+
+
+@rule("R-REGISTER-FOUND", ["C18"])
+def r_register_found(cx):
+    """Plain finds a file based macro in a register (`prefix.md`) by its opening tag. Once the tag has been found, the
+    item is what follows it, up to the closing fence or the end of the file: from the point where the search for the tag
+    has succeeded, every path returns - none goes on to the next directory of the search path (and from there to
+    `NotFound`), whatever the search for the closing fence yields."""
+    name = "<context::plain::Plain as context::Context>::get_resource"
+    if not cx.f.has_fn(name):
+        cx.ob("R-REGISTER-FOUND", "anchor", False, "anchor-missing: %s" % name)
+        return
+    f = cx.f.fn(name)
+    n = 0
+    for lp in f.loops():
+        if lp.parent is not None or "PathBuf" not in f.term(lp.header).get("callee_full", ""):
+            continue
+        finds = [bb for bb in sorted(lp.body) if f.term(bb)["k"] == "call" and
+                 (f.callee(f.term(bb)) or "").endswith("str>::find")]
+        first = [b for b in finds if all(b == o or f.dominates(b, o) for o in finds)]
+        if not first:
+            continue
+        fb = first[0]
+        # the switch on the discriminant of that result
+        some = None
+        for b2 in sorted(lp.body):
+            sw = f.term(b2)
+            if sw["k"] != "switch":
+                continue
+            d = f.operand(sw["discr"], f.end_point(b2))
+            src = mir.strip_refs(d[1]) if d[0] == "discr" else None
+            if src is not None and src[0] == "call" and src[3] == fb:
+                for v, tg in sw["targets"]:
+                    if v == 1:
+                        some = tg
+                if some is None and sw["targets"] and sw["targets"][0][0] == 0:
+                    some = sw["otherwise"]
+        if some is None:
+            continue
+        n += 1
+        back = lp.header in f.reach_from([some], avoid=[])
+        cx.ob("R-REGISTER-FOUND", "get_resource/tag-found", not back,
+              "once the tag of a register item has been found, get_resource returns the item" if not back else
+              "get_resource can go on to the next search directory (and end in NotFound) after it has found the tag of the "
+              "register item: an item that is the last of its file and lacks the closing fence is not found any more",
+              cx.where(f.term(fb)["span"]))
+    cx.count("R-REGISTER-FOUND", "tag_searches", n)
